@@ -838,3 +838,197 @@ pub fn panic_propagation(r: &RunResult, opts: &ExecOpts) -> Vec<Violation> {
     }
     out
 }
+
+/* ------------------------------ C15: happens-before monitor ------------------------------ */
+
+#[derive(Default)]
+pub struct HbStats {
+    pub cross_thread_reads: u64,
+    pub same_thread_reads: u64,
+    pub prepop_reads: u64,
+    pub acquire_edges: u64,
+    pub lock_edges: u64,
+    pub release_stores: u64,
+    pub relaxed_stores: u64,
+    pub reads_of_map_made_clones: u64,
+}
+
+fn is_acquire(o: std::sync::atomic::Ordering) -> bool {
+    use std::sync::atomic::Ordering::*;
+    matches!(o, Acquire | AcqRel | SeqCst)
+}
+fn is_release(o: std::sync::atomic::Ordering) -> bool {
+    use std::sync::atomic::Ordering::*;
+    matches!(o, Release | AcqRel | SeqCst)
+}
+
+/// Vector-clock happens-before monitor driven by the orderings flurry passes at its seams.
+///
+/// The simulated execution itself is sequentially consistent; what is decided here is whether
+/// the *orderings as written* order each payload initialisation before each payload read by
+/// another thread (C++11/Rust model: release store / release sequence through RMWs ->
+/// acquire load; lock release -> lock acquire; program order; thread start). Loads through a
+/// protected seize guard are SeqCst whatever ordering flurry passes (seize 0.3.3 `protect`).
+pub fn happens_before(r: &RunResult, st: &mut HbStats) -> Vec<Violation> {
+    use flurry::verif::Kind;
+    const N: usize = crate::sched::MAXT;
+    type VC = [u64; N];
+    let mut out = Vec::new();
+    let mut vc: [VC; N] = [[0; N]; N];
+    let mut rel: std::collections::HashMap<usize, VC> = std::collections::HashMap::new();
+    let mut lockrel: std::collections::HashMap<usize, VC> = std::collections::HashMap::new();
+    let join = |a: &mut VC, b: &VC| {
+        for i in 0..N {
+            if b[i] > a[i] {
+                a[i] = b[i];
+            }
+        }
+    };
+    // merge the three streams by clock (stable: accesses, then lock events, then reads at equal clocks
+    // does not matter because each stream entry carries its own thread and clocks are per decision point)
+    #[derive(Clone, Copy)]
+    enum E<'a> {
+        Acc(&'a crate::sched::AccessRec),
+        Lock(&'a crate::sched::EventRec),
+        Read(&'a crate::types::ReadRec),
+    }
+    let mut evs: Vec<(u64, u8, E<'_>)> = Vec::new();
+    for a in &r.outcome.accesses {
+        evs.push((a.clock, 0, E::Acc(a)));
+    }
+    for e in &r.outcome.events {
+        if matches!(e.ev, Ev::LockAcquired | Ev::LockReleased) {
+            evs.push((e.clock, 1, E::Lock(e)));
+        }
+    }
+    for rd in &r.reads {
+        evs.push((rd.clock, 2, E::Read(rd)));
+    }
+    // the logs are appended in execution order within each stream; a stable sort by clock keeps
+    // that order and interleaves streams at equal clocks in (access, lock, read) order, which is
+    // also the order in which they can occur between two decision points of one thread
+    evs.sort_by_key(|x| (x.0, x.1));
+    for (clock, _, e) in evs {
+        match e {
+            E::Acc(a) => {
+                let t = a.thread as usize;
+                if t >= N {
+                    continue;
+                }
+                vc[t][t] = vc[t][t].max(clock);
+                let acc = &a.a;
+                if acc.collector == usize::MAX - 1 {
+                    continue; // lock attempt marker
+                }
+                let eff_load = if acc.protected { std::sync::atomic::Ordering::SeqCst } else { acc.ord };
+                match acc.kind {
+                    Kind::Load => {
+                        if is_acquire(eff_load) {
+                            if let Some(rv) = rel.get(&acc.addr) {
+                                let rv = *rv;
+                                join(&mut vc[t], &rv);
+                                st.acquire_edges += 1;
+                            }
+                        }
+                    }
+                    Kind::Store => {
+                        if is_release(acc.ord) {
+                            rel.insert(acc.addr, vc[t]);
+                            st.release_stores += 1;
+                        } else {
+                            rel.remove(&acc.addr);
+                            st.relaxed_stores += 1;
+                        }
+                    }
+                    Kind::Swap | Kind::FetchAdd | Kind::FetchSub | Kind::Cas => {
+                        if acc.kind == Kind::Cas && !acc.ok {
+                            if is_acquire(acc.ord_fail) {
+                                if let Some(rv) = rel.get(&acc.addr) {
+                                    let rv = *rv;
+                                    join(&mut vc[t], &rv);
+                                }
+                            }
+                            continue;
+                        }
+                        let prev = rel.get(&acc.addr).copied();
+                        if is_acquire(acc.ord) {
+                            if let Some(rv) = &prev {
+                                join(&mut vc[t], rv);
+                                st.acquire_edges += 1;
+                            }
+                        }
+                        if is_release(acc.ord) {
+                            // an RMW continues the release sequence it reads from and heads its own
+                            let mut nv = vc[t];
+                            if let Some(rv) = &prev {
+                                join(&mut nv, rv);
+                            }
+                            rel.insert(acc.addr, nv);
+                            st.release_stores += 1;
+                        }
+                        // a relaxed RMW leaves the release sequence intact
+                    }
+                }
+            }
+            E::Lock(l) => {
+                let t = l.thread as usize;
+                if t >= N {
+                    continue;
+                }
+                vc[t][t] = vc[t][t].max(clock);
+                if l.ev == Ev::LockAcquired {
+                    if let Some(rv) = lockrel.get(&l.a) {
+                        let rv = *rv;
+                        join(&mut vc[t], &rv);
+                        st.lock_edges += 1;
+                    }
+                } else {
+                    lockrel.insert(l.a, vc[t]);
+                }
+            }
+            E::Read(rd) => {
+                let t = rd.thread as usize;
+                let Some(inst) = r.insts.get(rd.inst as usize) else { continue };
+                if t >= N {
+                    continue; // the controller reads only at quiescence, after joining every thread
+                }
+                vc[t][t] = vc[t][t].max(clock);
+                let u = inst.created_thread as usize;
+                if u >= N {
+                    st.prepop_reads += 1; // created before the threads were started
+                    continue;
+                }
+                if u == t {
+                    st.same_thread_reads += 1;
+                    continue;
+                }
+                st.cross_thread_reads += 1;
+                if inst.parent != NONE {
+                    st.reads_of_map_made_clones += 1;
+                }
+                if vc[t][u] < inst.created_clock {
+                    out.push(v(
+                        "unordered-read",
+                        format!(
+                            "thread {} read {} {} (instance {}) at clock {} but nothing orders that read after its initialisation by thread {} at clock {}: thread {}'s knowledge of thread {} only reaches clock {} (orderings as passed by flurry; protected loads counted as SeqCst)",
+                            t,
+                            if inst.is_key { "key" } else { "value" },
+                            inst.logical,
+                            rd.inst,
+                            clock,
+                            u,
+                            inst.created_clock,
+                            t,
+                            u,
+                            vc[t][u]
+                        ),
+                    ));
+                    if out.len() > 3 {
+                        return out;
+                    }
+                }
+            }
+        }
+    }
+    out
+}
